@@ -1,9 +1,307 @@
-import Ivg.Model.Decoder
-import Ivg.Model.Arc
-import Ivg.Model.MdIcons
+import Ivg.Lemmas.Decoder2
 import Ivg.Gen.Tie
 import Ivg.Obligations
-/-! # Property C13 — theorems (work in progress: tie obligations only so far) -/
+/-!
+# C13 — metadata: what Reset receives, what is rejected, and metadata-only decoding
+
+Property text: "Decoding delivers through Reset the viewBox and suggested palette stored in the
+metadata: defaults (-32,-32,32,32 and 64 opaque blacks) for absent chunks, N+1 explicit palette
+entries followed by opaque black, and indirect or non-premultiplied suggested colours replaced by
+opaque black. It rejects viewBoxes that are inverted, infinite or NaN, unknown chunk identifiers,
+and chunks whose declared length disagrees with their content; metadata-only decoding returns the
+same viewBox, validates the same things and touches no destination."
+
+Vocabulary (Lemmas/Metadata, Lemmas/Decoder2):
+* `MetaOk {} src hdr m rest` — the magic, the chunk count and every chunk of `src` are valid; they are
+  printed as the lines `hdr`, yield the metadata `m` (starting from the defaults `{}`) and leave `rest`.
+* `ChunkOk m minMID src its m' minMID' rest` — the two shapes of an accepted chunk
+  (`chunk_accepted_iff` shows these are exactly the accepted chunks).
+* `PalValid p` — all 64 entries of `p` satisfy `RGBA.validPremul`.
+* `decodeColors dec n src` — `n` colours decoded in sequence with the colour decoder `dec`;
+  `palDec f` — the colour decoder of palette format `f` (1, 2, 3-direct, 4 bytes per colour).
+-/
 namespace Ivg.Props.C13
+open Ivg Num Dec DecL
+
+/-- viewBox chunk (-24,-24,24,24), palette chunk (2 one-byte colours: white, then a palette-index
+    colour, which is indirect), a path -/
+def exIcon : Bytes :=
+  [0x89, 0x49, 0x56, 0x47, 0x04, 0x0a, 0x00, 0x50, 0x50, 0xb0, 0xb0, 0x08, 0x02, 0x01, 0x7c, 0x80,
+   0xc0, 0x80, 0x80, 0x21, 0x90, 0x90, 0xa0, 0x70, 0xe1]
+/-- no chunks at all -/
+def exBare : Bytes := [0x89, 0x49, 0x56, 0x47, 0x00, 0xc0, 0x80, 0x80, 0xe1]
+def exVbChunk : Bytes := [0x0a, 0x00, 0x50, 0x50, 0xb0, 0xb0]
+def exPalChunk : Bytes := [0x08, 0x02, 0x01, 0x7c, 0x80]
+
+set_option maxRecDepth 100000 in
+/-- non-vacuity of the `MetaOk` hypotheses below -/
+example : (∃ hdr m rest, MetaOk {} exIcon hdr m rest) ∧ (∃ hdr m rest, MetaOk {} exBare hdr m rest) :=
+  ⟨(decodeViewBox_ok_iff _).1 (by decide +kernel), (decodeViewBox_ok_iff _).1 (by decide +kernel)⟩
+
+set_option maxRecDepth 100000 in
+/-- non-vacuity of the chunk hypotheses below: an accepted viewBox chunk and palette chunk -/
+example : (∃ its, decodeMetadataChunk {} 0 exVbChunk = (its, .ok (⟨⟨-24, -24, 24, 24⟩, defaultPalette⟩, 1, []))) ∧
+    (∃ its, decodeMetadataChunk {} 1 exPalChunk =
+      (its, .ok (⟨defaultViewBox, defaultPalette.set6 0 ⟨255, 255, 255, 255⟩⟩, 2, []))) :=
+  ⟨⟨(decodeMetadataChunk {} 0 exVbChunk).1, by decide +kernel⟩,
+   ⟨(decodeMetadataChunk {} 1 exPalChunk).1, by decide +kernel⟩⟩
+
+/-! ## what Reset receives -/
+
+/-- Clause "Decoding delivers through Reset the viewBox and suggested palette stored in the
+    metadata": with a valid metadata section the first call is Reset with the decoded metadata
+    (after the caller's options, if any). -/
+theorem reset_delivers_metadata (opts : List DecodeOption) (src : Bytes) (hdr : List Item) (m : Metadata)
+    (rest : Bytes) (h : MetaOk {} src hdr m rest) :
+    ∃ cs, (decode opts src).1 = .reset (applyOptions m opts).viewBox (applyOptions m opts).palette :: cs ∧
+      applyOptions m [] = m :=
+  ⟨_, by rw [decode_of_metaOk h opts], rfl⟩
+
+/-- Clause "defaults … for absent chunks": without a chunk of identifier 0 (no "Metadata Identifier: 0"
+    line in the listing) the viewBox is the default one, without a chunk of identifier 1 the palette
+    is the default one. -/
+theorem defaults (src : Bytes) (hdr : List Item) (m : Metadata) (rest : Bytes) (h : MetaOk {} src hdr m rest) :
+    (LineKind.mid 0 ∉ kindsOf hdr → m.viewBox = defaultViewBox) ∧
+    (LineKind.mid 1 ∉ kindsOf hdr → m.palette = defaultPalette) := h.defaults
+
+set_option maxRecDepth 100000 in
+/-- … "(-32,-32,32,32 and 64 opaque blacks)". -/
+theorem default_values :
+    defaultViewBox = ⟨-32, -32, 32, 32⟩ ∧ ∀ j (hj : j < 64), defaultPalette[j] = ⟨0, 0, 0, 0xff⟩ :=
+  ⟨by decide +kernel, fun j hj => defaultPalette_getElem j hj⟩
+
+set_option maxRecDepth 100000 in
+example : (decode [] exBare).1.head? = some (.reset defaultViewBox defaultPalette) := by decide +kernel
+
+/-- Clause "N+1 explicit palette entries followed by opaque black", whole input: the palette handed
+    to Reset (before options) is either entirely default, or there is a palette chunk with header
+    byte `hb`; then with `N = hb & 0x3f` entries `0..N` are the `N+1` colours that follow the header
+    (in format `hb >> 6`), each converted by `Color.RGBA()`, and every entry above `N` is opaque black. -/
+theorem palette_explicit_then_black (src : Bytes) (hdr : List Item) (m : Metadata) (rest : Bytes)
+    (h : MetaOk {} src hdr m rest) :
+    m.palette = defaultPalette ∨
+    ∃ (hb : UInt8) (body rest' : Bytes) (cols : List Color),
+      Item.line ⟨[hb], .palHeader (1 + (hb &&& 0x3f).toNat) (1 + (hb >>> 6).toNat)⟩ ∈ hdr ∧
+      decodeColors (palDec (hb >>> 6).toNat) (1 + (hb &&& 0x3f).toNat) body = some (cols, rest') ∧
+      cols.length = 1 + (hb &&& 0x3f).toNat ∧
+      (∀ j (hj : j < 64), 1 + (hb &&& 0x3f).toNat ≤ j → m.palette[j] = RGBA.black) ∧
+      (∀ t (ht : t < cols.length) (hj : t < 64), m.palette[t] = cols[t].toRGBA.1) := h.palette_spec
+
+/-- … per chunk, from any current palette: entries `0..N` are overwritten, the others and the viewBox
+    are left alone. -/
+theorem palette_chunk_stores (m : Metadata) (minMID : Nat) (src : Bytes) (its : List Item) (m' : Metadata)
+    (rest : Bytes) (h : decodeMetadataChunk m minMID src = (its, .ok (m', 2, rest))) :
+    m'.viewBox = m.viewBox ∧
+    ∃ length w src1 w2 hb src3 cols, decodeNatural src = some (length, w, src1) ∧
+      decodeNatural src1 = some (1, w2, hb :: src3) ∧
+      decodeColors (palDec (hb >>> 6).toNat) (1 + (hb &&& 0x3f).toNat) src3 = some (cols, rest) ∧
+      cols.length = 1 + (hb &&& 0x3f).toNat ∧
+      (∀ j (hj : j < 64), 1 + (hb &&& 0x3f).toNat ≤ j → m'.palette[j] = m.palette[j]) ∧
+      (∀ t (ht : t < cols.length) (hj : t < 64), m'.palette[t] = cols[t].toRGBA.1) := by
+  obtain ⟨h1, length, w, src1, w2, hb, src3, cols, h2, h3, h4, h5, h6, h7, _⟩ :=
+    (decodeMetadataChunk_ok h).palette_spec
+  exact ⟨h1, length, w, src1, w2, hb, src3, cols, h2, h3, h4, h5, h6, h7⟩
+
+/-- Clause "indirect or non-premultiplied suggested colours replaced by opaque black": the conversion
+    applied to every stored entry yields opaque black for a colour that is not a direct RGBA value
+    (palette index, register reference, blend) or whose RGBA value is not premultiplied, the value
+    itself otherwise — hence always a valid premultiplied colour. -/
+theorem suggested_entry_conversion (c : Color) :
+    ((c.typ ≠ .rgba ∨ c.data.validPremul = false) → c.toRGBA.1 = RGBA.black) ∧
+    (c.typ = .rgba → c.data.validPremul = true → c.toRGBA.1 = c.data) ∧
+    c.toRGBA.1.validPremul = true :=
+  ⟨toRGBA_black, toRGBA_direct, toRGBA_validPremul c⟩
+example : (Color.paletteIndexColor 3).typ ≠ .rgba ∧
+    (Color.rgbaColor ⟨0x50, 0x20, 0x30, 0x40⟩).data.validPremul = false ∧
+    (Color.rgbaColor ⟨0x10, 0x20, 0x30, 0x40⟩).data.validPremul = true := by decide
+
+/-- … so every palette entry handed to Reset is a valid premultiplied colour, with or without
+    decode options (`WithPalette` / `WithColorAt` values are sanitised the same way). -/
+theorem suggested_sanitised (opts : List DecodeOption) (src : Bytes) (hdr : List Item) (m : Metadata)
+    (rest : Bytes) (h : MetaOk {} src hdr m rest) :
+    ∀ j (hj : j < 64), (applyOptions m opts).palette[j].validPremul = true := h.palValid opts
+
+set_option maxRecDepth 100000 in
+/-- the example: entry 0 is the white that was stored, entry 1 (a palette-index colour) and all the
+    rest are opaque black -/
+example : ∃ vb pal cs, (decode [] exIcon).1 = .reset vb pal :: cs ∧ pal[0] = ⟨255, 255, 255, 255⟩ ∧
+    pal[1] = RGBA.black ∧ pal[63] = RGBA.black ∧ vb = ⟨-24, -24, 24, 24⟩ :=
+  ⟨⟨-24, -24, 24, 24⟩, defaultPalette.set6 0 ⟨255, 255, 255, 255⟩, (decode [] exIcon).1.tail, by decide +kernel⟩
+
+/-! ## what is rejected -/
+
+/-- Complete characterisation: a chunk is accepted exactly if it is a well-formed viewBox chunk or a
+    well-formed suggested-palette chunk (`ChunkOk`). -/
+theorem chunk_accepted_iff (m : Metadata) (minMID : Nat) (src : Bytes) (its : List Item) (m' : Metadata)
+    (mm' : Nat) (rest : Bytes) :
+    decodeMetadataChunk m minMID src = (its, .ok (m', mm', rest)) ↔ ChunkOk m minMID src its m' mm' rest :=
+  decodeMetadataChunk_ok_iff
+
+/-- Clause "rejects viewBoxes that are inverted, infinite or NaN", acceptance side: the viewBox handed
+    to Reset satisfies `minX ≤ maxX`, `minY ≤ maxY` in the IEEE order and none of the four numbers is
+    NaN or infinite (`isNaNOrInfinity`: exponent field all ones). -/
+theorem viewbox_valid (src : Bytes) (hdr : List Item) (m : Metadata) (rest : Bytes)
+    (h : MetaOk {} src hdr m rest) :
+    m.viewBox.minX ≤ m.viewBox.maxX ∧ m.viewBox.minY ≤ m.viewBox.maxY ∧
+    isNaNOrInfinity m.viewBox.minX = false ∧ isNaNOrInfinity m.viewBox.minY = false ∧
+    isNaNOrInfinity m.viewBox.maxX = false ∧ isNaNOrInfinity m.viewBox.maxY = false := h.viewBox_valid
+
+/-- … rejection side: four decodable coordinates `a b c d` with `c < a`, `d < b` or a NaN/infinite
+    component give `invalid view box`. -/
+theorem viewbox_rejected (m : Metadata) (src : Bytes) (length w : Nat) (src1 : Bytes) (w2 : Nat)
+    (src2 : Bytes) (its4 : List Item) (a b c d : F32) (rest : Bytes)
+    (h1 : decodeNatural src = some (length, w, src1)) (h2 : decodeNatural src1 = some (0, w2, src2))
+    (h4 : decodeCoordinates 4 src2 = (its4, some ([a, b, c, d], rest)))
+    (hbad : c < a ∨ d < b ∨ isNaNOrInfinity a = true ∨ isNaNOrInfinity b = true ∨
+      isNaNOrInfinity c = true ∨ isNaNOrInfinity d = true) :
+    (decodeMetadataChunk m 0 src).2 = .error .invalidViewBox :=
+  chunk_viewBox_rejected h1 h2 h4 hbad
+set_option maxRecDepth 100000 in
+/-- inverted box (24,-24,-24,24), and a box whose minX is +Inf (4-byte coordinate 0x7f800000) -/
+example : (decodeMetadataChunk {} 0 [0x0a, 0x00, 0xb0, 0x50, 0x50, 0xb0]).2 = .error .invalidViewBox ∧
+    (decodeMetadataChunk {} 0 [0x10, 0x00, 0x03, 0x00, 0x80, 0x7f, 0x50, 0xb0, 0xb0]).2 = .error .invalidViewBox ∧
+    isNaNOrInfinity ⟨0x7f800000⟩ = true := by decide +kernel
+
+/-- Clause "rejects … unknown chunk identifiers". -/
+theorem unknown_mid_rejected (m : Metadata) (minMID : Nat) (src : Bytes) (length w : Nat) (src1 : Bytes)
+    (mid w2 : Nat) (src2 : Bytes) (h1 : decodeNatural src = some (length, w, src1))
+    (h2 : decodeNatural src1 = some (mid, w2, src2)) (h : 2 ≤ mid) :
+    (decodeMetadataChunk m minMID src).2 = .error .unsupportedMetadataIdentifier :=
+  chunk_unknown_mid h1 h2 h
+example : decodeNatural [0x02, 0x04, 0x00] = some (1, 1, [0x04, 0x00]) ∧
+    decodeNatural [0x04, 0x00] = some (2, 1, [0x00]) := by decide
+
+/-- Identifiers must be strictly increasing: a known identifier below the smallest one still allowed
+    is `metadata identifiers not in increasing order` … -/
+theorem mid_order_rejected (m : Metadata) (minMID : Nat) (src : Bytes) (length w : Nat) (src1 : Bytes)
+    (mid w2 : Nat) (src2 : Bytes) (h1 : decodeNatural src = some (length, w, src1))
+    (h2 : decodeNatural src1 = some (mid, w2, src2)) (h : mid < 2) (ho : mid < minMID) :
+    (decodeMetadataChunk m minMID src).2 = .error .metadataIdentifierOrder :=
+  chunk_mid_order h1 h2 h ho
+
+/-- … and after an accepted chunk with identifier `mid` the smallest identifier allowed is `mid + 1`
+    (so a repeated or descending identifier is rejected by `mid_order_rejected`) … -/
+theorem mid_strictly_increasing (m : Metadata) (minMID : Nat) (src : Bytes) (its : List Item)
+    (m' : Metadata) (mm' : Nat) (rest : Bytes)
+    (h : decodeMetadataChunk m minMID src = (its, .ok (m', mm', rest))) :
+    ∃ length w src1 mid w2 src2, decodeNatural src = some (length, w, src1) ∧
+      decodeNatural src1 = some (mid, w2, src2) ∧ minMID ≤ mid ∧ mid < 2 ∧ mm' = mid + 1 :=
+  (decodeMetadataChunk_ok h).next_mid
+
+/-- … hence at most two chunks are ever accepted. -/
+theorem at_most_two_chunks (f n : Nat) (m : Metadata) (src : Bytes) (its : List Item) (m' : Metadata)
+    (rest : Bytes) (h : decodeChunks f n m 0 src = (its, .ok (m', rest))) : n ≤ 2 := by
+  have := decodeChunks_count f n m 0 (by omega) h
+  omega
+set_option maxRecDepth 100000 in
+/-- two viewBox chunks: the second one is out of order -/
+example : (decodeChunks 20 2 {} 0 (exVbChunk ++ exVbChunk)).2 = .error .metadataIdentifierOrder ∧
+    (∃ its, decodeChunks 20 2 {} 0 (exVbChunk ++ exPalChunk) =
+      (its, .ok (⟨⟨-24, -24, 24, 24⟩, defaultPalette.set6 0 ⟨255, 255, 255, 255⟩⟩, []))) :=
+  ⟨by decide +kernel, (decodeChunks 20 2 {} 0 (exVbChunk ++ exPalChunk)).1, by decide +kernel⟩
+
+/-- Clause "rejects … chunks whose declared length disagrees with their content", acceptance side: in
+    an accepted chunk the declared length is exactly the number of bytes between the length field and
+    the end of the chunk — for any declared length, in particular a length exceeding the remaining
+    input is never accepted. -/
+theorem length_consistent (m : Metadata) (minMID : Nat) (src : Bytes) (its : List Item) (m' : Metadata)
+    (mm' : Nat) (rest : Bytes) (h : decodeMetadataChunk m minMID src = (its, .ok (m', mm', rest))) :
+    ∃ length w src1 body, decodeNatural src = some (length, w, src1) ∧ src1 = body ++ rest ∧
+      body.length = length :=
+  (decodeMetadataChunk_ok h).length_consistent
+
+/-- … rejection side, viewBox chunk: valid content but a declared length different from the bytes
+    consumed (smaller, larger, or larger than the input) is `inconsistent metadata chunk length` … -/
+theorem viewbox_length_rejected (m : Metadata) (src : Bytes) (length w : Nat) (src1 : Bytes) (w2 : Nat)
+    (src2 : Bytes) (its4 : List Item) (a b c d : F32) (rest : Bytes)
+    (h1 : decodeNatural src = some (length, w, src1)) (h2 : decodeNatural src1 = some (0, w2, src2))
+    (h4 : decodeCoordinates 4 src2 = (its4, some ([a, b, c, d], rest)))
+    (hgood : ¬ (c < a ∨ d < b ∨ isNaNOrInfinity a = true ∨ isNaNOrInfinity b = true ∨
+      isNaNOrInfinity c = true ∨ isNaNOrInfinity d = true))
+    (hlen : src1.length ≠ length + rest.length) :
+    (decodeMetadataChunk m 0 src).2 = .error .inconsistentMetadataChunkLength :=
+  chunk_viewBox_length_rejected h1 h2 h4 hgood hlen
+
+/-- … and palette chunk. -/
+theorem palette_length_rejected (m : Metadata) (minMID : Nat) (src : Bytes) (length w : Nat)
+    (src1 : Bytes) (w2 : Nat) (hb : UInt8) (src3 : Bytes) (its4 : List Item) (pal' : Palette) (rest : Bytes)
+    (h1 : decodeNatural src = some (length, w, src1)) (h2 : decodeNatural src1 = some (1, w2, hb :: src3))
+    (hmin : minMID ≤ 1)
+    (h4 : decodePaletteColors (palDec (hb >>> 6).toNat) (1 + (hb &&& 0x3f).toNat) 0 m.palette src3 =
+      some (its4, pal', rest))
+    (hlen : src1.length ≠ length + rest.length) :
+    (decodeMetadataChunk m minMID src).2 = .error .inconsistentMetadataChunkLength :=
+  chunk_palette_length_rejected h1 h2 hmin h4 hlen
+set_option maxRecDepth 100000 in
+/-- declared length 4, 6 and 100 for a 5-byte viewBox chunk body; declared length 5 for a 4-byte palette body -/
+example : (decodeMetadataChunk {} 0 [0x08, 0x00, 0x50, 0x50, 0xb0, 0xb0]).2 = .error .inconsistentMetadataChunkLength ∧
+    (decodeMetadataChunk {} 0 [0x0c, 0x00, 0x50, 0x50, 0xb0, 0xb0, 0x00]).2 = .error .inconsistentMetadataChunkLength ∧
+    (decodeMetadataChunk {} 0 [0xc8, 0x00, 0x50, 0x50, 0xb0, 0xb0]).2 = .error .inconsistentMetadataChunkLength ∧
+    (decodeMetadataChunk {} 0 [0x0a, 0x02, 0x01, 0x7c, 0x80, 0x00]).2 = .error .inconsistentMetadataChunkLength := by
+  decide +kernel
+
+/-! ## metadata-only decoding -/
+
+/-- Clause "validates the same things": DecodeViewBox succeeds exactly when the metadata section is
+    valid, i.e. exactly when Decode gets as far as delivering Reset … -/
+theorem metadata_only_ok_iff (src : Bytes) :
+    (decodeViewBox src).2 = none ↔ ∃ hdr m rest, MetaOk {} src hdr m rest := decodeViewBox_ok_iff src
+
+/-- … and otherwise fails with the same error as Decode (which then delivered nothing). -/
+theorem metadata_only_error_same (src : Bytes) (h : ¬ ∃ hdr m rest, MetaOk {} src hdr m rest) :
+    ∃ e, (decodeViewBox src).2 = some e ∧ (decode [] src).2 = some e ∧ (decode [] src).1 = [] := by
+  obtain ⟨e, h1, h2⟩ := decodeViewBox_of_not_metaOk h
+  obtain ⟨e', h3⟩ := decode_of_not_metaOk h []
+  exact ⟨e, h1, h2, by rw [h3]⟩
+set_option maxRecDepth 100000 in
+example : ¬ ∃ hdr m rest, MetaOk {} [0x89, 0x49, 0x56, 0x47, 0x02, 0x0a, 0x00, 0x50] hdr m rest :=
+  fun h => by
+    have := (decodeViewBox_ok_iff _).2 h
+    revert this
+    decide +kernel
+
+/-- Clause "metadata-only decoding returns the same viewBox": the viewBox returned is the one Decode
+    hands to Reset. -/
+theorem metadata_only_same (src : Bytes) (hdr : List Item) (m : Metadata) (rest : Bytes)
+    (h : MetaOk {} src hdr m rest) :
+    decodeViewBox src = (m.viewBox, none) ∧ ∃ cs, (decode [] src).1 = .reset m.viewBox m.palette :: cs :=
+  decodeViewBox_same h
+
+/-- Clause "touches no destination": the metadata-only traversal contains no Destination call
+    (and `decodeViewBox` has no destination by type). -/
+theorem metadata_only_no_calls (m0 : Metadata) (opts : List DecodeOption) (src : Bytes) :
+    callsOf (decodeCore true m0 opts src).1.items = [] := by
+  rcases metaOk_em m0 src with ⟨hdr, m, rest, h⟩ | h
+  · rw [(decodeCore_of_metaOk h opts).1]
+    obtain ⟨_, _, _, hc, _⟩ := h.spec
+    exact hc
+  · obtain ⟨its, e, h1, h2, _⟩ := decodeCore_of_not_metaOk h
+    rw [h1]
+    exact h2
+
+/-!
+## Not proved in this file
+
+* On FAILURE the Go `DecodeViewBox` returns whatever was written into the metadata before the error
+  (e.g. `MinX = 0` after a truncated first coordinate, or the rejected inverted box), while the model
+  returns the default viewBox; the differential harness compares only the error in that case, so no
+  theorem here speaks about the viewBox returned together with an error.
+* That the palette bytes written by the ENCODER decode to the palette it was given (round trip,
+  format selection, trailing-black trimming) belongs to C09 / C01.
+-/
+
 end Ivg.Props.C13
-#obligations C13 [Ivg.Gen.Tie.drawOps_tie, Ivg.Gen.Tie.magic_tie, Ivg.Gen.Tie.errorStrings_tie]
+
+#obligations C13 [
+  Ivg.Props.C13.reset_delivers_metadata, Ivg.Props.C13.defaults, Ivg.Props.C13.default_values,
+  Ivg.Props.C13.palette_explicit_then_black, Ivg.Props.C13.palette_chunk_stores,
+  Ivg.Props.C13.suggested_entry_conversion, Ivg.Props.C13.suggested_sanitised,
+  Ivg.Props.C13.chunk_accepted_iff, Ivg.Props.C13.viewbox_valid, Ivg.Props.C13.viewbox_rejected,
+  Ivg.Props.C13.unknown_mid_rejected, Ivg.Props.C13.mid_order_rejected,
+  Ivg.Props.C13.mid_strictly_increasing, Ivg.Props.C13.at_most_two_chunks,
+  Ivg.Props.C13.length_consistent, Ivg.Props.C13.viewbox_length_rejected,
+  Ivg.Props.C13.palette_length_rejected,
+  Ivg.Props.C13.metadata_only_ok_iff, Ivg.Props.C13.metadata_only_error_same,
+  Ivg.Props.C13.metadata_only_same, Ivg.Props.C13.metadata_only_no_calls,
+  Ivg.Gen.Tie.drawOps_tie, Ivg.Gen.Tie.magic_tie, Ivg.Gen.Tie.errorStrings_tie,
+  Ivg.Gen.Tie.defaultViewBox_tie, Ivg.Gen.Tie.mids_tie]
